@@ -142,6 +142,14 @@ TEMPLATES = [
     "import Dup \"x.bitproto\"\nenum Dup : uint1 {}",
     "import \"y.bitproto\"\nmessage UsesY {\n    y.x.XM m = 1\n}",
     "message DotUndef {\n    A.B.C x = 1\n}",
+    "const LIMIT = 4\nmessage DotConst {\n    byte[LIMIT.max] p = 1\n}",
+    "const LIM2 = 4\nconst LIM3 = LIM2.x + 1",
+    "type DotAl = uint3\nmessage DotAlias {\n    DotAl.x f = 1\n}",
+    "enum DotEn : uint2 {\n    DOT_A = 0\n}\nmessage DotEnum {\n    DotEn.DOT_A f = 1\n    DotEn.DOT_A.x g = 2\n}",
+    "message DotOuter {\n    message Inner {}\n}\nmessage DotShadow {\n    uint8 DotOuter = 1\n    DotOuter.Inner inner = 2\n}",
+    "message DotField {\n    uint8 a = 1\n    a.b c = 2\n}",
+    "import \"x.bitproto\"\nmessage DotImp {\n    x.XC.y f = 1\n    x.XM.b g = 2\n}\nconst DOTIMP = x.XM.b",
+    "option c.name_prefix = \"p\"\nconst DOTOPT = c.name_prefix",
     "message RefConst {\n    XC x = 1\n}",
     "const NOTTYPE = 1\nmessage RefNotType {\n    NOTTYPE x = 1\n}",
     "message NotConst {}\nconst RNC = NotConst",
@@ -217,6 +225,10 @@ def mutate_once(rng, text: str, idents=None) -> str:
             ("char_del", 4),
             ("brace", 4),
             ("self_dup", 2),
+            ("str_escape", 6),
+            ("str_new", 3),
+            ("ident_case", 3),
+            ("dotted", 6),
         ]
     )
     sig = [i for i, t in enumerate(toks) if not t.isspace()] or list(range(len(toks)))
@@ -294,6 +306,36 @@ def mutate_once(rng, text: str, idents=None) -> str:
         return "".join(toks)
     if kind == "self_dup":
         return text + "\n" + text
+    if kind in ("str_escape", "str_new"):
+        esc = "\\" + rng.choice(list("abcdefghijklmnopqrstuvwxyzABCXNU0123456789\\'\"/ ?*[](){}.-+%$#@!~^&|<>,;:=_`") + ["\n", "\t", "é", "x41", "u0041", "\r"])
+        strs = [i for i, t in enumerate(toks) if len(t) >= 2 and t[0] == '"' and t[-1] == '"']
+        if strs and kind == "str_escape":
+            i = rng.choice(strs)
+            body = toks[i][1:-1]
+            k = rng.below(len(body) + 1)
+            toks[i] = '"' + body[:k] + esc + body[k:] + '"'
+            return "".join(toks)
+        body = "".join(rng.choice(["a", "b", " ", esc, "/", "'", "1"]) for _ in range(rng.randint(0, 5)))
+        name = "S_" + rng.choice(["A", "B", "ESC"])
+        where = rng.below(len(lines) + 1)
+        lines.insert(where, 'const %s = "%s"' % (name, body))
+        return "\n".join(lines)
+    if kind == "dotted":
+        # turn a simple reference into a dotted one (through whatever that name denotes)
+        ids = [i for i, t in enumerate(toks) if re.match(r"[A-Za-z_]\w*$", t) and t not in KEYWORDS]
+        if ids:
+            i = rng.choice(ids)
+            t = toks[i]
+            other = toks[rng.choice(ids)]
+            toks[i] = rng.choice([t + "." + other, other + "." + t, t + "." + t, t + ".max", t + "." + other + "." + t, "." + t, t + "."])
+            return "".join(toks)
+    if kind == "ident_case":
+        ids = [i for i, t in enumerate(toks) if re.match(r"[A-Za-z_]\w*$", t) and t not in KEYWORDS]
+        if ids:
+            i = rng.choice(ids)
+            t = toks[i]
+            toks[i] = rng.choice([t.upper(), t.lower(), t.capitalize(), "_" + t, t + "_", t + "1", t[:1], t * 2, "type", "class", "def", "from", "int", "struct", "func", "default"])
+            return "".join(toks)
     # fall back
     i = _pick_pos(rng, len(toks) + 1)
     toks.insert(i, rng.choice(vocab))
@@ -323,7 +365,7 @@ def grammar_walk(rng, depth: int = 0) -> str:
     r = rng
 
     def ident():
-        return r.choice(["A", "B", "Cc", "d_e", "Msg", "Enm", "x.XM", "x.XE", "Undefined", "K"])
+        return r.choice(["A", "B", "Cc", "d_e", "Msg", "Enm", "x.XM", "x.XE", "Undefined", "K", "K.x", "A.B", "x.XC.y", "x.XT.z", "Msg.fa", "Enm.A0"])
 
     def typ():
         base = r.choice(["bool", "byte", "uint%d" % r.choice([1, 8, 33, 64, 65]), "int%d" % r.choice([1, 8, 33, 64, 0]), ident()])
